@@ -432,6 +432,12 @@ Fixpoint run_loop (st : pst) (evs : list sx) : list sx :=
   match evs with
   | [] => []
   | e :: rest =>
+      match e with
+      | SL (SN 8%Z :: _) =>
+          (* a peer reads what the proxy has written to it and the loop gets its writable event: nothing
+             the model distinguishes (sockets deliver at once in the model; the buffers are FIFO: C19) *)
+          sx_observe st :: run_loop st rest
+      | _ =>
       match sx_event st e with
       | None => [SL [SB (bs "bad-event")]]
       | Some ev =>
@@ -442,11 +448,12 @@ Fixpoint run_loop (st : pst) (evs : list sx) : list sx :=
           | RShutdown => [SL [SB (bs "shutdown")]]
           end
       end
+      end
   end.
 
 Definition e_loop (a : sx) : sx :=
   match a with
-  | SL [SL [SN limit; SB pw; SN tmo; SN maxa]; SL pls; SL sls; SL evs] =>
+  | SL [SL (SN limit :: SB pw :: SN tmo :: SN maxa :: _); SL pls; SL sls; SL evs] =>
       match map_opt (fun p => match p with SL [SB a; SN d] =>
                                 Some {| pp_addr := a; pp_slave := false; pp_conns := []; pp_closed := false; pp_dialable := negb (Z.eqb d 0) |}
                               | _ => None end) pls,
@@ -904,7 +911,7 @@ Fixpoint scan_leaves_requests (prev_tasks : bool) (evs obs : list sx) : bool :=
 
 Definition o_loop (a : sx) : sx :=
   match a with
-  | SL [SL [SL [SN limit; SB pw; SN tmo; _]; _; _; SL evs]; SL obs] =>
+  | SL [SL [SL (SN limit :: SB pw :: SN tmo :: _); _; _; SL evs]; SL obs] =>
       if (negb (Z.eqb tmo 0) && scan_leaves_requests false evs obs)%bool
       then viol "request-not-completed-by-the-timeout-scan" []
       else
